@@ -14,7 +14,8 @@ META = dict(
          "so a cut-off that happens within one timeout of the last timer restart is serviced while the timer still runs. "
          "Before each of the first H service calls the environment chooses: nothing / toggle the server (going "
          "down also kills its connections) / close the current connection from the server side; the clock advance; and during "
-         "the call connect_ex may answer EINPROGRESS, ECONNREFUSED or success out of turn and an idle recv may answer "
+         "the call connect_ex may answer EINPROGRESS, ECONNREFUSED, another completion errno (ECONNRESET, ECONNABORTED, ETIMEDOUT, ...) or "
+         "success out of turn and an idle recv may answer "
          "ECONNRESET. All schedules with <= 3 deviations (H=6, quick) / <= 4 (H=9, thorough) are run; then the environment "
          "stays good for 6 more calls (server listening, natural answers; immediate: clock +T per call; realistic: +T once so "
          "the timeout has elapsed, then +T/4 per call). Oracle: a reconnectable subject is connected to a live socket - "
@@ -72,6 +73,14 @@ def init():
     M = dict(clienting=clienting, hclienting=hclienting, stacking=stacking, storing=storing)
 
 
+# connect_ex completion errors other than "refused": a failed asynchronous connect reports them on a later
+# connect_ex / SO_ERROR; the client must treat them as "not connected, try again"
+COMPLETION_ERRNOS = (errno.ECONNRESET, errno.ECONNABORTED, errno.ETIMEDOUT, errno.ENETUNREACH, errno.EHOSTUNREACH)
+
+
+COMPLETION = dict(quick=COMPLETION_ERRNOS, thorough=COMPLETION_ERRNOS)
+
+
 class Policy:
     """ChooserPolicy plus the 'realistic' connect variant: the natural answer of the first connect_ex
     on a fresh socket towards a listening server is EINPROGRESS, the next call completes (0) - what a
@@ -94,6 +103,19 @@ class Policy:
                     break
         if self.frozen:
             return order[0]
+        if op == "connect_ex":
+            # the completion errnos form ONE alternative (one deviation); which of them is a second, free choice
+            group = [i for i in order if cands[i][0] == "rc" and cands[i][1] in COMPLETION_ERRNOS]
+            if group:
+                rest = [i for i in order if i not in group]
+                k = self.ch.choose(len(rest) + 1, "%s.%s" % (sock.name, op), 0, 1)
+                if k < len(rest):
+                    return rest[k]
+                if core.TIER == "thorough":         # which errno: a second, free choice
+                    return group[self.ch.choose(len(group), "%s.%s errno" % (sock.name, op), 0, 0)]
+                # quick: a representative, rotating with the position in the schedule (all errnos take the same branch
+                # in ioflo: not 0/EISCONN, not EINVAL/ECONNREFUSED)
+                return group[len(self.ch.points) % len(group)]
         return order[self.ch.choose(len(cands), "%s.%s" % (sock.name, op), 0, 1)]
 
 
@@ -240,7 +262,8 @@ def execute(ch, subject, reconnectable, up0, H, part, states):
     ck = net.clock()
     env = Env(fn, up0)
     sched = ["connect=steady"] if steady else (["connect=realistic"] if realistic else [])
-    faulty = net.Menu(connect=(errno.EINPROGRESS, errno.ECONNREFUSED), recv_idle_errnos=(errno.ECONNRESET,),
+    faulty = net.Menu(connect=(errno.EINPROGRESS, errno.ECONNREFUSED) + COMPLETION[core.TIER],
+                      recv_idle_errnos=(errno.ECONNRESET,),
                       handshake=("want_read",))      # only TLS subjects ever handshake
     fn.menu = faulty
     try:
@@ -281,7 +304,9 @@ def execute(ch, subject, reconnectable, up0, H, part, states):
         try:
             service()
         except Exception as ex:
-            sched.append("%s/+%g/raised" % (ev, dt))
+            ans = [net.show(a) for n_, op, a in fn.log[mark:] if op in ("connect_ex", "recv") and isinstance(a, tuple)
+                   and a not in (net.BLOCK,)]
+            sched.append("%s/+%g/%sraised" % (ev, dt, (",".join(ans) + ",") if ans else ""))
             w = where_of(ex)
             return ("raised|%s|%s" % (type(ex).__name__, w),
                     "service call %d raised %s: %s (in %s)" % (step, type(ex).__name__, ex, w), sched, fn)
@@ -535,7 +560,8 @@ def run():
     return ck.finish(
         rule="{Client, Patron, TcpClientStack, ClientTls} (+ https Patron, reconnectable) x {reconnectable, not} x {server initially up, down}: every schedule of %d "
              "service calls with <= %d deviations among env event {none, toggle server, server closes connection}, clock "
-             "advance {T, T/2, 0}, connect_ex {natural, EINPROGRESS, ECONNREFUSED}, idle recv {would-block, ECONNRESET}; "
+             "advance {T, T/2, 0}, connect_ex {natural, EINPROGRESS, ECONNREFUSED, another completion errno (one of ECONNRESET, ECONNABORTED, "
+             "ETIMEDOUT, ENETUNREACH, EHOSTUNREACH: thorough each, quick a representative rotating with the position)}, idle recv {would-block, ECONNRESET}; "
              "followed by %d good calls; plus PatronSSE: a reconnectable Patron on a text/event-stream with retry: 500, every "
              "sequence of %d cuts x {stream followed 2, 0, 6 calls first} x {server close, ECONNRESET}"
              % (b["H"], b["dev"], CLOSING, SSE_CUTS[core.TIER]),
